@@ -29,7 +29,7 @@ def classes(a, spec, res):
 
 
 def subchecks(tier):
-    prof = common.full_profile(horizon=(6.0, 18.0), plans=("max_time", "max_time", "max_time", "max_customers"), resumptions=(1, 2))
+    prof = common.full_profile("C04", horizon=(6.0, 18.0), plans=("max_time", "max_time", "max_time", "max_customers"), resumptions=(1, 2))
     prof.weights.update({"ps": 0.0, "inf": 0.1, "slotted": 0.05, "schedule": 0.45, "capacity": 0.5, "server_priority": 0.3})
     return [system_subcheck("lattice", prof, lambda spec: [Exclusivity(spec)], nontrivial, classes=classes,
                             n={"quick": 9600, "thorough": 50000}, rule="finite-server lattice; attachment monitor + utilisation audit")]
